@@ -651,6 +651,89 @@ func c11Nested(run *core.Run) {
 	})
 }
 
+// c11Real: the stock minifiers registered the way the command line tool registers them (shared option structs,
+// m.Add) and embedded in each other.  Every embedded piece must come out as the stand-alone call of its own minifier
+// on a fresh registry returns it - whatever was minified before on the same registry (a style attribute before a
+// style element, one document before the next) - and a payload whose minifier fails must come back untouched.
+func c11Real(run *core.Run) {
+	fresh := func(mt string, in string, params map[string]string) string {
+		m := newM(nil)
+		var out bytes.Buffer
+		if err := m.MinifyMimetype([]byte(mt), &out, strings.NewReader(in), params); err != nil {
+			return in
+		}
+		return out.String()
+	}
+	n := run.N(200, 4000)
+	reg := newM(nil) // one registry for the whole sequence: state that sticks shows in later documents
+	var mu sync.Mutex
+	for i := 0; i < n; i++ {
+		r := run.CaseRand("c11real", i, n/2)
+		var sb strings.Builder
+		var want []string
+		sb.WriteString("<!doctype html><title>t</title>")
+		for k := r.Range(2, 5); k > 0; k-- {
+			switch r.Intn(5) {
+			case 0:
+				d := r.Pick([]string{"color : #ff0000 ; margin : 0px 0px", "width : calc( 1px + 2px )", "background : url( 'a.png' ) no-repeat"})
+				sb.WriteString("<p style=\"" + d + "\">a</p>")
+				want = append(want, "styleattr:"+fresh("text/css", d, map[string]string{"inline": "1"}))
+			case 1:
+				c := r.Pick([]string{"a { color : #ff0000 } b { margin : 0px 0px }", "p > b { width : calc( 1px + 2px ) }", "@media screen { .x { top : 0.50em } }"})
+				sb.WriteString("<style>" + c + "</style>")
+				want = append(want, "style:"+fresh("text/css", c, nil))
+			case 2:
+				j := r.Pick([]string{"var x = 1 + 2 ; if ( x ) { y( x ) }", "function f ( a ) { return a * 2 }"})
+				sb.WriteString("<script>" + j + "</script>")
+				want = append(want, "script:"+fresh("application/javascript", j, nil))
+			case 3:
+				// a data URI whose minifier fails after it has shortened an earlier part of the payload
+				pl := r.Pick([]string{"{\"size\":1000000, // bytes\n\"b\":2}", "{\"n\":10000000,\"x\":undefined}", "[1000000,NaN]"})
+				enc := strings.NewReplacer("%", "%25", " ", "%20", "\"", "%22", "\n", "%0A", "#", "%23").Replace(pl)
+				sb.WriteString("<a href=\"data:application/json," + enc + "\">d</a>")
+				want = append(want, "datauri:"+pl)
+			default:
+				pl := r.Pick([]string{"{ \"a\" : 1.0 , \"b\" : [ 1 , 2 ] }", "[ 100000 , 2 ]"})
+				enc := strings.NewReplacer("%", "%25", " ", "%20", "\"", "%22").Replace(pl)
+				sb.WriteString("<a href=\"data:application/json," + enc + "\">d</a>")
+				want = append(want, "datauri:"+fresh("application/json", pl, nil))
+			}
+		}
+		doc := sb.String()
+		run.Eval()
+		mu.Lock()
+		out, err, pan := minifyBytes(reg, "text/html", []byte(doc))
+		mu.Unlock()
+		cfg := "c11 real html>css/js/json on one shared registry"
+		bad := ""
+		if pan != "" {
+			bad = "panic: " + pan
+		} else if err != nil {
+			bad = "error: " + err.Error()
+		} else if got, perr := c11OutputSlots("html", string(out)); perr != "" {
+			bad = "output cannot be re-parsed: " + perr
+		} else if len(got) != len(want) {
+			bad = fmt.Sprintf("output has %d payload slots, input has %d: %q", len(got), len(want), got)
+		} else {
+			for k := range want {
+				if got[k] != want[k] {
+					bad = fmt.Sprintf("slot %d holds %q; the minifier on its own gives %q", k, core.Trunc(got[k], 100), core.Trunc(want[k], 100))
+					break
+				}
+			}
+		}
+		if bad != "" {
+			run.Violation(core.Key(cfg, []byte(doc)), cfg+" (document "+fmt.Sprint(i)+" of the sequence): "+bad+" | in="+core.Trunc(doc, 400), map[string]interface{}{"config": cfg, "input": doc})
+			if i > 20 {
+				return // state that sticks makes every later document fail the same way
+			}
+			continue
+		}
+		run.Count("c11_real_documents")
+		run.NonTrivial([]byte(cfg), []byte(doc))
+	}
+}
+
 func C11(run *core.Run) {
 	run.ReplayWitnesses(func(f core.Finding, w core.Witness) (bool, string) {
 		// recorded witnesses are stylesheets with data URIs: the URL must come back out of the output
@@ -665,6 +748,7 @@ func C11(run *core.Run) {
 		return false, ""
 	})
 	c11Nested(run)
+	c11Real(run)
 	n := run.N(6000, 200000)
 	core.ParallelFor(n, 0, func(i int) {
 		r := run.CaseRand("c11", i, n/2)
